@@ -10,12 +10,15 @@
      bank_has .. s i E sE             sE is the state of branch i inside the bank state s
      sswitch_elem n rate buf eid t0   SimplePacketSwitch(env, n, rate, buf): simple_switch true n over n Ports
      fswitch_elem c buf eid sched ends t0   FairPacketSwitch: fair_switch true true c over n branches `Port(rate 0, limit buf) >> sched`
+     fork wa wb A B / mcast t0 want Es   replicating composition: branch i is given p iff want i p (NSplitter: always; Hub: iff
+                                      endpoint i is not the packet's source)
      laws E = conserves E /\ (forall f, flow_fifo E f) /\ drained E  (Props/C08_Pipe.v) *)
 From Coq Require Import ZArith QArith List Bool Permutation Arith.
 From ONL Require Import Elem.Packet Elem.StoreQ Elem.HeapList Elem.WFQServer Elem.WFQ Elem.VC Elem.WFQInst Elem.DRR Elem.DRRInv
   Elem.SchedBase Elem.SchedBaseProofs Elem.SP Elem.Port Elem.PortProofs Route.Demux Route.DemuxProofs
   Elem.Iface Elem.Compose Elem.ComposePar Elem.ComposeHands Elem.ComposeFan Elem.ComposeSwitch
-  Elem.AdaptPort Elem.AdaptSched Elem.AdaptSrv Elem.AdaptDRR Elem.AdaptSwitch Elem.AdaptSwitchExample.
+  Elem.ComposeCast Route.Hub Route.HubProofs Elem.AdaptPort Elem.AdaptSched Elem.AdaptSrv Elem.AdaptDRR Elem.AdaptSwitch
+  Elem.AdaptCast Elem.AdaptSwitchExample Elem.AdaptCastExample.
 Import ListNotations.
 Local Open Scope Q_scope.
 
@@ -113,6 +116,39 @@ Theorem C08_route_fswitch_branches : forall (c : fair_cfg) (buf : option Z) (eid
 Proof. exact fswitch_branch_view. Qed.
 Print Assumptions C08_route_fswitch_branches.
 
+(* ================= replicating elements: NSplitter and Hub ================= *)
+(* A splitter legitimately duplicates; its conservation law is per output.  Two elements side by side, a packet put into BOTH
+   (when wa / wb say so): each side of ANY execution is an admissible execution of that element alone, given exactly its packets *)
+Theorem C08_route_fork_projection : forall (wa wb : pkt -> bool) (A B : elem) acts sA sB sA' sB' tr,
+  run (fork wa wb A B) (sA, sB) acts = Some ((sA', sB'), tr) ->
+  exists trA trB,
+    run A sA (factsA wa wb A B acts) = Some (sA', trA) /\ run B sB (factsB wa wb A B acts) = Some (sB', trB) /\
+    puts trA = filter wa (puts tr) /\ puts trB = filter wb (puts tr) /\
+    interleave (fwds trA) (fwds trB) (fwds tr) /\ interleave (drops trA) (drops trB) (drops tr).
+Proof. exact fork_projection. Qed.
+Print Assumptions C08_route_fork_projection.
+
+(* NSplitter over any number of outputs: EVERY output receives EVERY packet exactly once, in the order in which they were put in
+   (the device behind it runs as it would alone); and each of them is forwarded by that device, discarded by its own rule, or held *)
+Theorem C08_route_nsplitter_each_output : forall (t0 : Q) (Es : list elem) acts s tr,
+  run (nsplitter_elem t0 Es) (init (nsplitter_elem t0 Es)) acts = Some (s, tr) ->
+  forall i E, nth_error Es i = Some E -> conserves E ->
+  exists sE acts_i tr_i, mcast_has t0 Es (fun _ _ => true) s i E sE /\ run E (init E) acts_i = Some (sE, tr_i) /\
+    puts tr_i = puts tr /\ Permutation (puts tr) (fwds tr_i ++ drops tr_i ++ held E sE) /\ sublist (fwds tr_i) (fwds tr).
+Proof. exact nsplitter_each_output. Qed.
+Print Assumptions C08_route_nsplitter_each_output.
+
+(* Hub: every endpoint receives exactly the packets that did not come from it (C18_hub_repeats' rule), each once, in order *)
+Theorem C08_route_hub_each_output : forall (t0 : Q) (hs : hub_state) (src : pkt -> Z) (Es : list elem) acts s tr,
+  run (hub_elem t0 hs src Es) (init (hub_elem t0 hs src Es)) acts = Some (s, tr) ->
+  forall i E, nth_error Es i = Some E -> conserves E ->
+  exists sE acts_i tr_i, mcast_has t0 Es (hub_want hs src) s i E sE /\ run E (init E) acts_i = Some (sE, tr_i) /\
+    puts tr_i = filter (hub_want hs src i) (puts tr) /\
+    (forall p, hub_want hs src i p = true <-> exists e, nth_error hs i = Some e /\ ep_id e <> src p) /\
+    Permutation (filter (hub_want hs src i) (puts tr)) (fwds tr_i ++ drops tr_i ++ held E sE) /\ sublist (fwds tr_i) (fwds tr).
+Proof. exact hub_each_output. Qed.
+Print Assumptions C08_route_hub_each_output.
+
 (* ================= non-vacuity: executions observed on the real classes, replayed ================= *)
 (* SimplePacketSwitch(2 ports, 1024 bit/s, buffer 2), packets of flows 0, 0, 1, 2 at t = 0: one refused by port 0 and counted,
    one without a port, two delivered at t = 1 *)
@@ -137,3 +173,21 @@ Theorem C08_ex_fswitch_run :
     held fsw_E s = [] /\ urgent fsw_E s = false /\ deadline fsw_E s = None.
 Proof. exact fsw_run. Qed.
 Print Assumptions C08_ex_fswitch_run.
+
+(* NSplitter(2) in front of Port(1024 bit/s, limit 2) and Port(rate 0): both are given all three packets *)
+Theorem C08_ex_nsplitter_run :
+  exists s tr, run nsp_E (init nsp_E) nsp_acts = Some (s, tr) /\
+    cuids (puts tr) = [0; 1; 2]%nat /\ cuids (fwds tr) = [0; 1; 2; 0]%nat /\ cuids (drops tr) = [1; 2]%nat /\
+    precv (fst s) = 3%Z /\ pdrop (fst s) = 2%Z /\ precv (fst (snd s)) = 3%Z /\ pdrop (fst (snd s)) = 0%Z /\
+    held nsp_E s = [] /\ urgent nsp_E s = false /\ deadline nsp_E s = None.
+Proof. exact nsp_run. Qed.
+Print Assumptions C08_ex_nsplitter_run.
+
+(* Hub with three endpoints behind ports; packets from endpoints 0, 1, from outside, from 1: nobody gets its own packet *)
+Theorem C08_ex_hub_run :
+  exists s tr, run hub_E (init hub_E) hub_acts = Some (s, tr) /\
+    cuids (puts tr) = [0; 1; 2; 3]%nat /\ cuids (fwds tr) = [0; 1; 1; 2; 2; 3; 3; 0]%nat /\ cuids (drops tr) = [2]%nat /\
+    precv (fst s) = 3%Z /\ precv (fst (snd s)) = 2%Z /\ pdrop (fst (snd s)) = 1%Z /\ precv (fst (snd (snd s))) = 4%Z /\
+    held hub_E s = [] /\ urgent hub_E s = false /\ deadline hub_E s = None.
+Proof. exact hub_run. Qed.
+Print Assumptions C08_ex_hub_run.
